@@ -15,11 +15,12 @@ use crate::tag_iterator_util::AllowableErrors;
 // ---------------------------------------------------------------------------------------------
 // scripted source
 // ---------------------------------------------------------------------------------------------
-pub struct ScriptSrc { pub data: Vec<u8>, pub pos: usize, pub chunk: Vec<usize>, pub k: usize, pub pauses: Vec<usize>, pub fail_at: Option<usize>, pub reads: usize, pub eof_polls: usize }
+pub struct ScriptSrc { pub data: Vec<u8>, pub pos: usize, pub chunk: Vec<usize>, pub k: usize, pub pauses: Vec<usize>, pub fail_at: Option<usize>, pub fail_once_at: Option<usize>, pub reads: usize, pub eof_polls: usize }
 impl Read for ScriptSrc {
     fn read(&mut self, buf: &mut [u8]) -> std::io::Result<usize> {
         self.reads += 1;
         if let Some(f) = self.fail_at { if self.pos >= f { return Err(std::io::Error::new(std::io::ErrorKind::Other, "scripted failure")); } }
+        if let Some(f) = self.fail_once_at { if self.pos >= f { self.fail_once_at = None; return Err(std::io::Error::new(std::io::ErrorKind::ConnectionReset, "scripted one-shot failure")); } }
         if let Some(i) = self.pauses.iter().position(|p| *p == self.pos) { self.pauses.remove(i); return Ok(0); }
         if self.pos >= self.data.len() && !buf.is_empty() {
             // watchdog: a caller that keeps polling an exhausted source is not making progress ("no hang")
@@ -72,7 +73,7 @@ fn show_items(items: &[(T, usize)]) -> String { items.iter().map(|(t, o)| format
 fn show_trace(t: &Trace) -> String { format!("[{}] err={:?}{}", show_items(&t.items), t.err, t.panicked.as_ref().map(|p| format!(" PANIC {}", p)).unwrap_or_default()) }
 
 pub fn make(input: &[u8], cfg: &Cfg) -> TagIterator<ScriptSrc, T> {
-    let src = ScriptSrc { data: input.to_vec(), pos: 0, chunk: cfg.chunk.clone(), k: 0, pauses: cfg.pauses.clone(), fail_at: None, reads: 0, eof_polls: 0 };
+    let src = ScriptSrc { data: input.to_vec(), pos: 0, chunk: cfg.chunk.clone(), k: 0, pauses: cfg.pauses.clone(), fail_at: None, fail_once_at: None, reads: 0, eof_polls: 0 };
     let buffered: Vec<T> = cfg.buffered.iter().map(|id| T::M(*id, Master::Start)).collect();
     let mut it: TagIterator<ScriptSrc, T> = TagIterator::with_capacity(src, &buffered, cfg.cap);
     let mut allow = Vec::new();
@@ -897,7 +898,10 @@ fn check_recover(table: &bs::Table, bytes: &[u8], flat: &[(T, usize)], rep: &mut
             let whole = match rf::hdr_at(bytes, at) { Hdr::Ok { id_len, size_len, size, .. } => id_len + size_len + size.unwrap_or(0) as usize, _ => continue };
             let fits = enclosing_known_ends(flat, bytes, at).iter().all(|e| at + junk.len() + whole <= *e);
             let _ = ftag;
-            let mut it = make(&input, &Cfg::strict());
+          for rcfg in [Cfg::strict(), Cfg { allow: 4, ..Cfg::strict() }, Cfg { allow: 6, cap: 1, chunk: vec![2], ..Cfg::strict() }] {
+            // tolerating oversized children / hierarchy problems, a tiny buffer and short reads must not change recovery
+            let ctx = |s: String| format!("doc-bytes={} junk={} at={} {} {}", rf::hex(bytes), rf::hex(junk), at, rcfg.show(), s);
+            let mut it = make(&input, &rcfg);
             let mut all: Vec<(T, usize)> = Vec::new();
             let mut errs = 0usize;
             let mut recovered = false;
@@ -930,6 +934,7 @@ fn check_recover(table: &bs::Table, bytes: &[u8], flat: &[(T, usize)], rep: &mut
                 let same = all.len() == flat.len() && all.iter().zip(flat.iter()).all(|(a, b)| rf::tag_eq(&a.0, &b.0) && a.1 == if b.1 >= at { b.1 + junk.len() } else { b.1 });
                 rep.clause("C14/C03: the tags before the junk are emitted unchanged and all remaining tags exactly as in the undamaged document (offsets at/after the junk shifted by its length, End offsets = the master's start)", same, || ctx(format!("got=[{}] want=[{}]", show_items(&all), show_items(flat))));
             }
+          }
         }
     }
 }
@@ -1039,6 +1044,22 @@ pub fn unit_ioerr() -> Report {
             }
             rep.cases += 1; rep.nontrivial += 1;
             rep.clause("C05: an I/O error from the source surfaces as a read error carrying the original error (never a panic, never another error kind)", !panicked && other.is_none() && got_read_err, || format!("input={} fail_at={} other={:?} panicked={}", rf::hex(&bytes), f, other, panicked));
+            // a ONE-SHOT error (the source would deliver again afterwards): it must surface all the same, as the first error
+            for (chunk, cap) in [(vec![2usize], 4usize), (vec![], 65536), (vec![1], 1), (vec![3], 3)] {
+                let mut it = make(&bytes, &Cfg { chunk: chunk.clone(), cap, ..Cfg::strict() });
+                it.source.fail_once_at = Some(f);
+                let mut first_err: Option<String> = None; let mut panicked = false; let mut read_err = false;
+                for _ in 0..(4 * bytes.len() + 24) {
+                    match std::panic::catch_unwind(std::panic::AssertUnwindSafe(|| it.next())) {
+                        Err(_) => { panicked = true; break; }
+                        Ok(None) => break,
+                        Ok(Some(Ok(_))) => {}
+                        Ok(Some(Err(e))) => { read_err = matches!(&e, TagIteratorError::ReadError { source } if source.kind() == std::io::ErrorKind::ConnectionReset); first_err = Some(format!("{:?}", e)); break; }
+                    }
+                }
+                rep.cases += 1;
+                rep.clause("C05: a one-shot I/O error from the source is not swallowed: it surfaces as the read error carrying the original error", !panicked && read_err, || format!("input={} fail_once_at={} chunk={:?} cap={} first_err={:?} panicked={}", rf::hex(&bytes), f, chunk, cap, first_err, panicked));
+            }
         }
     }
     rep
